@@ -292,10 +292,10 @@ impl POp {
       POp::Clear { .. } | POp::Maint { .. } => None,
     }
   }
-  /// compute-family / or_insert_with: in a correct implementation the user closure runs while the
-  /// shard's write lock is held
+  /// compute-family closures run while the shard's write lock is held; the entry forms dwell (closure
+  /// event) while the harness holds the `Entry` guard, i.e. the shard's write lock
   fn closure_under_write_lock(&self) -> bool {
-    matches!(self, POp::Compute { .. } | POp::OrInsert { with: true, .. })
+    matches!(self, POp::Compute { .. } | POp::OrInsert { .. } | POp::EntryGet { .. })
   }
 }
 
@@ -457,12 +457,16 @@ pub fn scenario_strategy(f: Focus) -> impl Strategy<Value = Scenario> {
       };
       let ttl_ms = if has_ttl { Some(ttl) } else { None };
       let swr_ms = if has_ttl && has_swr && loader != PLoader::None { Some(50) } else { None };
+      // a stale hit starts its refresh in the background; only the harness spawner lets the harness wait
+      // for such a task reliably (a thread the cache spawns for a sync loader is invisible until it
+      // enters the loader body)
+      let loader = if swr_ms.is_some() { PLoader::Async } else { loader };
       PCfg { shards, collide, pol, ttl_ms, swr_ms, listener, loader, load_cost }
     });
   cfg.prop_flat_map(move |cfg| {
     let hl = cfg.loader != PLoader::None;
     let timed = cfg.ttl_ms.is_some();
-    let step = if timed { proptest::option::weighted(p_step as f64 / 100.0, prop_oneof![Just(1u16), Just(9), Just(10), Just(11), Just(40), Just(49), Just(50), Just(51), Just(60), Just(100), Just(101)]).boxed() } else { Just(None).boxed() };
+    let step = if timed { proptest::option::weighted(p_step as f64 / 100.0, prop_oneof![Just(1u16), Just(9), Just(10), Just(11), Just(40), Just(49), Just(50), Just(51), Just(60), Just(100), Just(101)]).boxed() } else { Just(None::<u16>).boxed() };
     (
       Just(cfg),
       proptest::collection::vec(setup_strategy(hl, timed), 0..6),
@@ -806,14 +810,27 @@ fn exec_op(w: &World, op: &POp, base: u64) -> Res {
     POp::Peek { a, k } => Res::Opt(if *a { block_on(ac.peek(&PKey(*k))) } else { c.peek(&PKey(*k)) }.map(cl)),
     POp::Fetch { a, k } => Res::Opt(if *a { block_on(ac.fetch(&PKey(*k))) } else { c.fetch(&PKey(*k)) }.map(cl)),
     POp::EntryGet { a, k } => Res::Opt(if *a {
+      // (the closure event is a dwell while the entry guard = shard write lock is held)
       match block_on(ac.entry(PKey(*k))) {
-        fibre_cache::AsyncEntry::Occupied(o) => Some(cl(o.get())),
-        fibre_cache::AsyncEntry::Vacant(_) => None,
+        fibre_cache::AsyncEntry::Occupied(o) => {
+          hook(EvKind::Closure);
+          Some(cl(o.get()))
+        }
+        fibre_cache::AsyncEntry::Vacant(_v) => {
+          hook(EvKind::Closure);
+          None
+        }
       }
     } else {
       match c.entry(PKey(*k)) {
-        fibre_cache::Entry::Occupied(o) => Some(cl(o.get())),
-        fibre_cache::Entry::Vacant(_) => None,
+        fibre_cache::Entry::Occupied(o) => {
+          hook(EvKind::Closure);
+          Some(cl(o.get()))
+        }
+        fibre_cache::Entry::Vacant(_v) => {
+          hook(EvKind::Closure);
+          None
+        }
       }
     }),
     POp::OrInsert { a, k, c: ci, with } => {
@@ -1419,6 +1436,9 @@ pub fn execute(sc: &Scenario) -> Result<CaseReport, Failure> {
     }
   }
   // ---- report: the closest reference, the clause of the first differing observation ----
+  if refs.is_empty() {
+    return Ok(rep);
+  }
   let (name, best, d) = refs.iter().map(|(n, r)| (n, r, diff(&conc, r))).min_by_key(|(_, _, d)| d.len()).unwrap();
   let prop_of = |clause: &str| -> &'static str {
     match clause {
@@ -1439,7 +1459,7 @@ pub fn execute(sc: &Scenario) -> Result<CaseReport, Failure> {
   // every differing observation is a violated sentence of its property; report the one of the
   // property under check if there is one
   let mut clause = d[0];
-  if let Some(c) = d.iter().find(|c| prop_of(c) == prop) {
+  if let Some(c) = d.iter().find(|c| prop_of(c) == prop.as_str()) {
     clause = c;
   }
   // a fetch_with that returned another value while the loader count differs: C15 "every caller returns that one loaded value"
